@@ -114,7 +114,7 @@ func AbsTicks(f *SegFile, s Sample) int64 {
 
 // CompareWithSent checks a normally closed recording against the units sent: per session
 // (= stream id) and track, the recorded samples must be exactly the expected ones, in order,
-// with their timestamps (±1 tick), durations (= distance to the next unit, ±1 tick) and
+// with their timestamps (±2 ticks), durations (= distance to the next unit, ±1 tick) and
 // random-access flags. The last unit of every track is held back by the recorder when it is
 // closed: its presence is a don't-care.
 func CompareWithSent(h History, segs []SegFile) []Discrepancy {
@@ -164,7 +164,8 @@ func CompareWithSent(h History, segs []SegFile) []Discrepancy {
 				if g.s.Sync != w.Sync {
 					out = append(out, Discrepancy{"sync-flag", fmt.Sprintf("unit %d recorded with sync=%v, sent with %v", w.UnitID, g.s.Sync, w.Sync)})
 				}
-				if d := AbsTicks(g.f, g.s) - w.PTS; d < -1 || d > 1 {
+				// two independent truncations (segment start in ns -> ticks, part base time): +-2 ticks
+			if d := AbsTicks(g.f, g.s) - w.PTS; d < -2 || d > 2 {
 					out = append(out, Discrepancy{"timestamp", fmt.Sprintf("unit %d recorded at %d ticks, sent at %d", w.UnitID, AbsTicks(g.f, g.s), w.PTS)})
 				}
 				if i+1 < n {
